@@ -533,6 +533,8 @@ def run(index: RepoIndex, rep) -> None:
     # the returned next state is that copy, on every path (never the input handed back)
     from .wiring import step_on_callers_state
     step_on_callers_state(index, rep, 'C03.R1')
+    from .wiring import records_as_given
+    records_as_given(index, rep, 'C03.R1')
 
     # ---------------------------------------------------------------- R2
     def check_ro(fn: Func, allowed: Set[str], label: str):
